@@ -15,15 +15,20 @@ CORR_HEADER = ("From Coq Require Import ZArith QArith List String.\n"
                "From ACN Require Import Base.Num Model.EVSE Model.SimSkel Model.SimIface.\nImport ListNotations.\n"
                "Open Scope string_scope.\nOpen Scope Z_scope.\n")
 CHECK_FN = "check_c05"
-SHARD = 15
-RULE = ("the C01 generator (1-8 stations of mixed EVSE classes, optional constraints, 0-25 mostly valid sessions with forced "
-        "back-to-back reuse / simultaneous events, extra RecomputeEvents, max_recompute in {None,1,2,5}, period in {1,5,15}); "
-        "every history is run twice on the real Simulator — with a recording scheduler and with a recording scheduler that then "
-        "overwrites every field of every object it can reach through the Interface — and the recorded views (current_time, "
-        "current_datetime, SessionInfo fields incl. remaining_time / arrival_offset, last_applied_pilot_signals, "
-        "last_actual_charging_rate, get_prev_peak, infrastructure arrays), per-period charging rates, final energies, peak and "
-        "final iteration are compared with the model replaying the returned schedules; distinct = distinct (network, sessions, "
-        "recomputes, max_recompute, period, scheduler kind/seed); ambiguous = a remaining demand within 1e-7 of 1e-3")
+SHARD = 19
+RULE = ("the C01 generator (1-8 stations of mixed EVSE classes and id styles, optional constraints, 0-25 mostly valid sessions with "
+        "forced back-to-back reuse / simultaneous events, extra RecomputeEvents, max_recompute in {None,0,1,2,3,5}, period in "
+        "{0.5,1,2.5,5,7,15}, mixed int/float/numpy types) with the families plain / reuse (same network, EventQueue and scheduler objects "
+        "after a prelude simulation) / twin (same station ids and constraint names, other values, run nested inside a scheduler call) / "
+        "resume (scheduler raises, run() again) / netupdate (update/add/remove_constraint between calls: later views must show the "
+        "new description) / 10% malformed; every history is run twice on the real Simulator - with a recording scheduler and with one "
+        "that then overwrites every object reachable through the Interface and the schedule it returned last time - and the recorded "
+        "views (current_time, current_datetime, SessionInfo fields incl. remaining_time / arrival_offset, last_applied_pilot_signals, "
+        "last_actual_charging_rate, get_prev_peak, infrastructure arrays), per-period charging rates, final energies, peak and final "
+        "iteration are compared with the model replaying the returned schedules; monitors additionally check get_constraints, the "
+        "per-station accessors, remaining_amp_periods, the deprecated active_evs accessor, held objects and caller-owned arguments; "
+        "distinct = distinct (network, sessions, recomputes, max_recompute, period, scheduler kind/seed, family, id style); ambiguous = a "
+        "remaining demand within 1e-7 of 1e-3 (still monitored)")
 ASSUMPTIONS = S_ASSUMPTIONS = [
     "schedulers are modelled as arbitrary functions view -> schedule; isolation of the real objects handed out by the Interface "
     "is established by the mutating-scheduler run of the correspondence, not by a theorem",
